@@ -357,15 +357,15 @@ def _backend_agreement(ctx) -> None:
 
 def run(ctx) -> None:
     ctx.explanation = EXPLANATION
-    _nullable_uses(ctx, "parsing", "_parse_common", "COMMON")
-    _nullable_uses(ctx, "parsing.iso8601", "parse_iso8601", "ISO8601_DT")
-    _nullable_uses(ctx, "parsing.iso8601", "_parse_iso8601_duration", "ISO8601_DURATION")
-    _overflow(ctx)
-    _interval_types(ctx)
-    _rust_and_ladder(ctx)
-    _strict_gate(ctx)
-    _explicit_raises(ctx)
-    _backend_agreement(ctx)
+    ctx.step(_nullable_uses, ctx, "parsing", "_parse_common", "COMMON")
+    ctx.step(_nullable_uses, ctx, "parsing.iso8601", "parse_iso8601", "ISO8601_DT")
+    ctx.step(_nullable_uses, ctx, "parsing.iso8601", "_parse_iso8601_duration", "ISO8601_DURATION")
+    ctx.step(_overflow, ctx)
+    ctx.step(_interval_types, ctx)
+    ctx.step(_rust_and_ladder, ctx)
+    ctx.step(_strict_gate, ctx)
+    ctx.step(_explicit_raises, ctx)
+    ctx.step(_backend_agreement, ctx)
     ctx.expect_min("NULLABLE-GROUP", 25)
     ctx.expect_min("UNBOUNDED-INT", 5)
     ctx.expect_min("CAST-UNION", 3)
